@@ -157,43 +157,63 @@ func gen(r *vc.Rand, thorough bool) (untimed, timed []job) {
 	}
 
 	// --- 5. real time: short ttls, sleeps; all instants are ≥ 50 ms away from every expiry boundary
-	nTimed := 260
+	addT := func(cs, count string) { timed = append(timed, job{cs: cs, count: count}) }
+	for _, b := range backends {
+		for rep := 0; rep < 2; rep++ {
+			rc := genRec(r, "T", false)
+			n, m := r.Intn(2), r.Intn(3)
+			// the nodes' clock passes the waiting period while the Redis key is still there: explicit check, then the record is gone
+			addT(mk(b, "150,150,0", []string{fmtRec("reg", n, rc), look(m, "T"), "advw:200", look(m, "T"), look((m+1)%3, "T")}), "gen:timed-explicit-check")
+			// everything ages together
+			addT(mk(b, "150,150,0", []string{fmtRec("reg", n, rc), "adv:100", look(m, "T"), "adv:100", look(m, "T")}), "gen:timed-lapse")
+			// stays live across several steps with the longer ttl, then lapses
+			addT(mk(b, "250,250,0", []string{fmtRec("reg", n, rc), "adv:100", look(m, "T"), "adv:100", look((m+1)%3, "T"), "adv:100", look(m, "T")}), "gen:timed-lapse")
+			// re-registration after the lapse starts a new waiting period (and a replayed id does not see the old data)
+			rc2 := genRec(r, "T", false)
+			addT(mk(b, "150,150,0", []string{fmtRec("reg", n, rc), "adv:200", look(m, "T"), fmtRec("reg", 1-n, rc2), look(m, "T"), "adv:100", look(m, "T"), "advw:100", look(m, "T")}), "gen:timed-reregister")
+			// bridge opened, never served, waiting period lapses; the bridge end afterwards is harmless
+			addT(mk(b, "150,150,0", []string{fmtRec("open", n, rc), look(m, "T"), "adv:200", look(m, "T"), end(n, "T"), look(m, "T")}), "gen:timed-open")
+		}
+	}
+	nTimed := 200
 	if thorough {
 		nTimed = 5000
 	}
 	for i := 0; i < nTimed; i++ {
 		b := vc.Pick(r, backends)
 		ttls := vc.Pick(r, []string{"150,250,0", "250,150,150", "150,150,150", "0,150,250"})
-		tids := []string{"T", vc.Pick(r, idPool)}
-		n := 4 + r.Intn(6)
-		var evs []string
+		tids := []string{"T", "T", vc.Pick(r, idPool)}
+		n := 5 + r.Intn(7)
+		evs := []string{fmtRec("reg", r.Intn(3), genRec(r, "T", false))}
 		slept := 0
 		for k := 0; k < n; k++ {
 			node := r.Intn(3)
 			tid := vc.Pick(r, tids)
-			switch r.Intn(12) {
-			case 0, 1, 2:
+			switch r.Intn(14) {
+			case 0, 1:
 				evs = append(evs, fmtRec("reg", node, genRec(r, tid, false)))
-			case 3, 4, 5, 6:
+			case 2, 3, 4, 5:
 				evs = append(evs, look(node, tid))
-			case 7:
+			case 6:
 				evs = append(evs, rem(node, tid))
-			case 8:
+			case 7:
 				evs = append(evs, fmtRec("open", node, genRec(r, tid, false)))
-			case 9, 10:
-				if slept < 600 {
+			case 8, 9, 10, 11:
+				if slept < 700 {
 					d := vc.Pick(r, []int{100, 100, 200})
 					slept += d
-					evs = append(evs, fmt.Sprintf("%s:%d", vc.Pick(r, []string{"adv", "adv", "advw"}), d))
+					evs = append(evs, fmt.Sprintf("%s:%d", vc.Pick(r, []string{"adv", "advw", "advw"}), d), look(node, tid))
 				}
-			case 11:
+			case 12:
 				evs = append(evs, fmt.Sprintf("advs:%d", vc.Pick(r, []int{100, 149, 150, 250, 30000})))
+			case 13:
+				evs = append(evs, end(node, tid))
 			}
 		}
 		if slept == 0 {
-			evs = append(evs, "adv:200", look(r.Intn(3), "T"))
+			evs = append(evs, "advw:200", look(r.Intn(3), "T"))
 		}
-		timed = append(timed, job{cs: mk(b, ttls, evs), count: "gen:timed"})
+		addT(mk(b, ttls, evs), "gen:timed")
 	}
 	return untimed, timed
 }
